@@ -48,7 +48,7 @@ package flamego
 //@   ensures result.(*responseWriter).ResponseWriter == w && result.(*responseWriter).method == method
 
 //@ func (*responseWriter).callBefore
-//@   props C13 C03 C15
+//@   props C13 C03 C15 C05
 // (the hooks run while no status is claimed or sent: a hook that panics leaves the writer able to send one, e.g. Recovery's 500)
 //@   requires[C13,C15] w.status == 0
 //@   requires w.hookCalls == 0 && hooksNonNil(w)
@@ -98,7 +98,7 @@ package flamego
 //@   ensures 0 <= size && size <= len(b)
 
 //@ func (*responseWriter).Flush
-//@   props C13 C03
+//@   props C13 C03 C05
 //@   requires rwInv(w)
 //@   modifies w.status, w.writeHeaderOnce.fired, w.beforeOnce.fired, w.hookCalls, w.hookOrder, w.hdrAtHooks, w.nHooksRun,
 //@            w.ResponseWriter.hdrCount, w.ResponseWriter.hdrSent, w.ResponseWriter.firstStatus, w.ResponseWriter.bodyAtHdr, w.ResponseWriter.ctAtHdr, w.ResponseWriter.flushes
@@ -108,19 +108,19 @@ package flamego
 //@   ensures w.size == old(w.size)
 
 //@ func (*responseWriter).Status
-//@   props C13 C03
+//@   props C13 C03 C05
 //@   ensures result == w.status
 
 //@ func (*responseWriter).Written
-//@   props C13 C03
+//@   props C13 C03 C05
 //@   ensures result == (w.status != 0)
 
 //@ func (*responseWriter).Size
-//@   props C13 C03
+//@   props C13 C03 C05
 //@   ensures result == w.size
 
 //@ func (*responseWriter).Before
-//@   props C13 C03
+//@   props C13 C03 C05
 //@   requires rwInv(w) && before != nil
 //@   modifies w.beforeFuncs, w.beforeFuncs[*]
 //@   ensures rwInv(w)
@@ -255,7 +255,7 @@ package flamego
 // Application middleware: Use appends (wrapped, in order) behind what is there, Handlers replaces the stack, Action sets
 // the final handler, Before queues in FIFO order. createContext (above) puts f.handlers in front of the route's handlers.
 //@ func (*Flame).Use
-//@   props C03
+//@   props C03 C15
 //@   requires handlersNonNil(f.handlers) && (ref(handlers) == 0 || base(handlers) != base(f.handlers)) && allocated(f.handlers)
 //@   modifies f.handlers, handlers[*], f.handlers[*]
 //@   panics true
@@ -265,7 +265,7 @@ package flamego
 //@   ensures forall j int :: old(len(f.handlers)) <= j && j < len(f.handlers) ==> f.handlers[j] == flamego.validateAndWrapHandler(old(handlers[j - len(f.handlers)]), nil)
 // Handlers: the stack becomes exactly the given handlers (wrapped), in order
 //@ func (*Flame).Handlers
-//@   props C03
+//@   props C03 C15
 //@   modifies f.handlers, elems(type([]Handler))
 //@   panics true
 //@   ensures len(f.handlers) == len(handlers) && handlersNonNil(f.handlers)
@@ -357,14 +357,14 @@ package flamego
 //@ define shortcutInv(r *router) bool = forall m string, p string :: has(r.staticRoutes, m) && has(r.staticRoutes[m], p) ==> shortcutOK(r.staticRoutes[m][p])
 
 //@ func (*router).ServeHTTP
-//@   props C07 C02 C10 C05 C01 C09 C18 C12
-//@   requires[C10,C01,C09,C07] shortcutAgrees(r)
+//@   props C07 C02 C10 C05 C01 C09 C18 C12 C11
+//@   requires[C10,C01,C09,C07,C11] shortcutAgrees(r)
 //@   ghost before dyn#0: req.chosen = leaf
 //@   ghost before dyn#1: req.chosen = leaf
 //@   ghost before notFound#0: req.chosen = nil
 //@   ghost before notFound#1: req.chosen = nil
-//@   ensures[C10,C01,C09,C07] has(r.routeTrees, req.Method) ==> req.chosen == specNext(nodeOf(r.routeTrees[req.Method]), trimLeftSlash(req.URL.Path), 0, req.Header)
-//@   ensures[C10,C01,C09,C07] !has(r.routeTrees, req.Method) ==> req.chosen == nil
+//@   ensures[C10,C01,C09,C07,C11] has(r.routeTrees, req.Method) ==> req.chosen == specNext(nodeOf(r.routeTrees[req.Method]), trimLeftSlash(req.URL.Path), 0, req.Header)
+//@   ensures[C10,C01,C09,C07,C11] !has(r.routeTrees, req.Method) ==> req.chosen == nil
 //@   assert[C02,C12] before dyn#1: params["route"] == routeStr(leafBase(leaf).route)
 //@   requires routerWF(r) && treeWF()
 //@   requires w != nil && req != nil && req.URL != nil
@@ -461,21 +461,22 @@ package flamego
 //@   panics true
 // Redirect hands the request's own writer and request to net/http (status 302 unless exactly one status is given)
 //@ func (*context).Redirect
-//@   props C18
+//@   props C18 C05
 //@   requires reqOK(c)
 //@   modifies *
+//@   nosharedwrites
 //@   panics true
 //@ func (*context).Params
-//@   props C18 C02
+//@   props C18 C02 C05
 //@   ensures result == c.params
 //@ func (*context).Param
 //@   props C18 C05 C02
 //@   ensures result == c.params[name]
 //@ func (*context).ParamInt
-//@   props C18
+//@   props C18 C05
 //@   ensures result == atoiVal(c.params[name])
 //@ func (*context).ParamInt64
-//@   props C18
+//@   props C18 C05
 //@   ensures result == parseIntVal(c.params[name], 64)
 
 //@ func (*context).Query
@@ -483,24 +484,24 @@ package flamego
 //@   requires reqOK(c)
 //@   ensures result == queryOr(c, name, len(defaultVal) > 0, ite(len(defaultVal) > 0, defaultVal[0], ""))
 //@ func (*context).QueryBool
-//@   props C18
+//@   props C18 C05
 //@   requires reqOK(c)
 //@   ensures result == ite(queryGet(c.request.Request.URL, name) == "" && len(defaultVal) > 0, defaultVal[0], parseBoolVal(queryGet(c.request.Request.URL, name)))
 //@ func (*context).QueryInt
-//@   props C18
+//@   props C18 C05
 //@   requires reqOK(c)
 //@   ensures queryGet(c.request.Request.URL, name) == "" && len(defaultVal) > 0 ==> result == defaultVal[0]
 //@   ensures !(queryGet(c.request.Request.URL, name) == "" && len(defaultVal) > 0) ==> result == parseIntVal(queryGet(c.request.Request.URL, name), 0)
 //@ func (*context).QueryInt64
-//@   props C18
+//@   props C18 C05
 //@   requires reqOK(c)
 //@   ensures result == ite(queryGet(c.request.Request.URL, name) == "" && len(defaultVal) > 0, defaultVal[0], parseIntVal(queryGet(c.request.Request.URL, name), 64))
 //@ func (*context).QueryFloat64
-//@   props C18
+//@   props C18 C05
 //@   requires reqOK(c)
 //@   ensures result == ite(queryGet(c.request.Request.URL, name) == "" && len(defaultVal) > 0, defaultVal[0], parseFloatVal(queryGet(c.request.Request.URL, name)))
 //@ func (*context).QueryUnescape
-//@   props C18
+//@   props C18 C05
 //@   requires reqOK(c)
 //@   ensures result == queryUnescape(queryOr(c, name, len(defaultVal) > 0, ite(len(defaultVal) > 0, defaultVal[0], "")))
 
@@ -516,12 +517,12 @@ package flamego
 //@ uninterpreted hdrOf(w http.ResponseWriter) http.Header
 
 //@ func (*context).QueryTrim
-//@   props C18
+//@   props C18 C05
 //@   requires reqOK(c)
 //@   ensures result == trimSpace(queryOr(c, name, len(defaultVal) > 0, ite(len(defaultVal) > 0, defaultVal[0], "")))
 
 //@ func (*context).QueryStrings
-//@   props C18
+//@   props C18 C05
 //@   requires reqOK(c)
 //@   ensures queryHas(c.request.Request.URL, name) ==> result == queryVals(c.request.Request.URL, name)
 //@   ensures !queryHas(c.request.Request.URL, name) && len(defaultVal) > 0 ==> result == defaultVal[0]
@@ -555,23 +556,25 @@ package flamego
 //@ define renderOK(r *render) bool = r.responseWriter != nil && !r.responseWriter.hdrSent && r.responseWriter.hdrCount == 0
 
 //@ func (*render).JSON
-//@   props C17
+//@   props C17 C05
 //@   requires renderOK(r)
 //@   modifies *
+//@   nosharedwrites
 //@   ensures r.responseWriter.firstStatus == status && r.responseWriter.hdrCount >= 1
 //@   ensures r.responseWriter.ctAtHdr == "application/json; charset=" + r.opts.Charset
 //@   ensures r.responseWriter.lastCodec == "json" && r.responseWriter.lastEncoded == v && r.responseWriter.lastIndent == r.opts.JSONIndent
 
 //@ func (*render).XML
-//@   props C17
+//@   props C17 C05
 //@   requires renderOK(r)
 //@   modifies *
+//@   nosharedwrites
 //@   ensures r.responseWriter.firstStatus == status && r.responseWriter.hdrCount >= 1
 //@   ensures r.responseWriter.ctAtHdr == "text/xml; charset=" + r.opts.Charset
 //@   ensures r.responseWriter.lastCodec == "xml" && r.responseWriter.lastEncoded == v && r.responseWriter.lastIndent == r.opts.XMLIndent
 
 //@ func (*render).Binary
-//@   props C17
+//@   props C17 C05
 //@   requires renderOK(r)
 //@   modifies hdrOf(r.responseWriter)[*], r.responseWriter.hdrCount, r.responseWriter.hdrSent, r.responseWriter.firstStatus, r.responseWriter.bodyAtHdr, r.responseWriter.ctAtHdr, r.responseWriter.bodyBytes, r.responseWriter.lastWrite
 //@   ensures r.responseWriter.firstStatus == status && r.responseWriter.hdrCount == 1
@@ -579,7 +582,7 @@ package flamego
 //@   ensures r.responseWriter.lastWrite == bytes(v)
 
 //@ func (*render).PlainText
-//@   props C17
+//@   props C17 C05
 //@   requires renderOK(r)
 //@   modifies hdrOf(r.responseWriter)[*], r.responseWriter.hdrCount, r.responseWriter.hdrSent, r.responseWriter.firstStatus, r.responseWriter.bodyAtHdr, r.responseWriter.ctAtHdr, r.responseWriter.bodyBytes, r.responseWriter.lastWrite
 //@   ensures r.responseWriter.firstStatus == status && r.responseWriter.hdrCount == 1
@@ -598,7 +601,7 @@ package flamego
 
 // option defaults
 //@ func Renderer$1
-//@   props C17
+//@   props C17 C05
 //@   ensures result.Charset == ite(opts.Charset == "", "utf-8", opts.Charset) && result.JSONIndent == opts.JSONIndent && result.XMLIndent == opts.XMLIndent
 
 // ---------------------------------------------------------------------------
@@ -652,7 +655,7 @@ package flamego
 //@     rvIface(injValue(c, inject.InterfaceOf(iface(type(*http.ResponseWriter), nil)))).(http.ResponseWriter)
 
 //@ func defaultReturnHandler$3
-//@   props C14
+//@   props C14 C05
 //@   skip typeassert panic@call:InterfaceOf
 //@   requires c != nil && !rhWriter(c).hdrSent && rhWriter(c).hdrCount == 0
 //@   modifies rhWriter(c).hdrCount, rhWriter(c).hdrSent, rhWriter(c).firstStatus, rhWriter(c).bodyAtHdr, rhWriter(c).ctAtHdr, rhWriter(c).bodyBytes, rhWriter(c).lastWrite
@@ -674,9 +677,10 @@ package flamego
 //@   panics true
 //@   ensures fn.calls == old(fn.calls) + 1 && fn.lastCtx == ctx
 //@ func (ContextInvoker).Invoke
-//@   props C04
+//@   props C04 C05
 //@   requires invoke != nil && len(args) >= 1
 //@   modifies *
+//@   nosharedwrites
 //@   panics true
 //@   skip typeassert
 //@   ensures result0 == nil && result1 == nil
@@ -689,9 +693,10 @@ package flamego
 //@   panics true
 //@   ensures fn.calls == old(fn.calls) + 1 && fn.lastW == w && fn.lastR == r
 //@ func (httpHandlerFuncInvoker).Invoke
-//@   props C04
+//@   props C04 C05
 //@   requires invoke != nil && len(args) >= 2
 //@   modifies *
+//@   nosharedwrites
 //@   panics true
 //@   skip typeassert
 //@   ensures result0 == nil && result1 == nil
@@ -703,9 +708,10 @@ package flamego
 //@   panics true
 //@   ensures fn.calls == old(fn.calls) + 1 && fn.lastCtx == ctx
 //@ func (LoggerInvoker).Invoke
-//@   props C04
+//@   props C04 C05
 //@   requires invoke != nil && len(params) >= 2
 //@   modifies *
+//@   nosharedwrites
 //@   panics true
 //@   skip typeassert
 //@   ensures result0 == nil && result1 == nil
@@ -716,9 +722,10 @@ package flamego
 //@   modifies *
 //@   panics true
 //@ func (teapotInvoker).Invoke
-//@   props C14 C04
+//@   props C14 C04 C05
 //@   requires invoke != nil
 //@   modifies *
+//@   nosharedwrites
 //@   panics true
 //@   ensures result1 == nil && len(result0) == 2
 //@   ensures result0[0] == reflect.ValueOf(iface(type(int), ret1)) && result0[1] == reflect.ValueOf(iface(type(string), ret2))
@@ -810,7 +817,7 @@ package flamego
 
 // option normalisation
 //@ func Static$1
-//@   props C16
+//@   props C16 C05
 //@   ensures result.Directory == ite(opts.Directory == "", "public", opts.Directory)
 //@   ensures result.FileSystem != nil
 //@   ensures result.FileSystem == ite(opts.FileSystem == nil, iface(type(http.Dir), result.Directory), opts.FileSystem)
@@ -842,11 +849,11 @@ package flamego
 //@   ensures ctxWriter(c).served == nil && ctxWriter(c).redirects == 0 && ctxWriter(c).hdrCount == old(ctxWriter(c).hdrCount) ==> (forall k string :: hdrOf(ctxWriter(c))[k] == old(hdrOf(ctxWriter(c))[k]))
 
 //@ func Static$2$1
-//@   props C16
+//@   props C16 C05
 //@   requires-captured f != nil
 //@   modifies nothing
 //@ func Static$2$2
-//@   props C16
+//@   props C16 C05
 //@   requires-captured index != nil
 //@   modifies nothing
 
@@ -857,7 +864,7 @@ package flamego
 //@ define routeObjWF(x *Route) bool = x != nil && x.router != nil && x.leaves != nil && (forall m string :: has(x.leaves, m) ==> x.leaves[m] != nil && live(leafBase(x.leaves[m])))
 
 //@ func (*router).addRoute
-//@   props C08 C09 C10
+//@   props C08 C09 C10 C01 C11
 //@   requires routerWF(r) && treeWF() && handler != nil
 //@   modifies maps(type(map[string]route.Leaf)), route.baseTree.leaves, route.baseTree.subtrees, route.baseTree.snapLeaves, route.baseTree.snapTrees, route.Segment.scratchIdx, elems(type([]route.Leaf)), elems(type([]route.Tree)),
 //@       route.Segment.str, route.Segment.strOnce.fired, route.Route.str, route.Route.strOnce.fired
@@ -905,7 +912,7 @@ package flamego
 //@   loop 0 invariant forall k int :: rangeindex < k && k < len(handlers) ==> handlers[k] == old(handlers[k])
 
 //@ func (*router).Route
-//@   props C11 C03 C04
+//@   props C11 C03 C04 C07
 //@   requires routerWF(r) && treeWF()
 //@   modifies maps(type(map[string]route.Leaf)), route.baseTree.leaves, route.baseTree.subtrees, route.baseTree.snapLeaves, route.baseTree.snapTrees, route.Segment.scratchIdx, elems(type([]route.Leaf)), elems(type([]route.Tree)),
 //@       route.Segment.str, route.Segment.strOnce.fired, route.Route.str, route.Route.strOnce.fired,
@@ -1155,7 +1162,7 @@ package flamego
 //@   loop 0 invariant forall m string :: has(r.staticRoutes, m) ==> r.staticRoutes[m] != nil && fresh(r.staticRoutes[m]) && r.staticRoutes[m] != r.namedRoutes && (forall p string :: !has(r.staticRoutes[m], p))
 
 //@ func (*router).HandlerWrapper
-//@   props C11 C04
+//@   props C11 C04 C03
 //@   modifies r.handlerWrapper
 //@   ensures r.handlerWrapper == f
 // Any exported method added to the context or the router later is verified against these defaults: it keeps the
@@ -1185,7 +1192,7 @@ package flamego
 //@   ensures forall k int :: 0 <= k && k < len(r.groups) ==> r.groups[k].path == old(r.groups[k].path) && r.groups[k].handlers == old(r.groups[k].handlers)
 
 //@ func (*router).Group
-//@   props C11
+//@   props C11 C07 C03
 //@   requires routerWF(r) && treeWF() && fn != nil
 //@   call fn#0 as registerCallback(r)
 //@   modifies *
